@@ -117,7 +117,7 @@ def pur_rules(ctx):
     _fixture(ctx)
 
 
-def pur_global(ctx, modules):
+def pur_global(ctx, modules, floor=5):
     """PUR-GLOBAL restricted to some modules: a function that writes into a module- or
     class-level array leaks state from one call into the next (the value returned for one
     input then depends on the calls made before)."""
@@ -141,8 +141,10 @@ def pur_global(ctx, modules):
         if not bad:
             ctx.ob('PUR-GLOBAL', True, None, '%s writes no module/class-level array'
                    % f.qualname, f=f, key='global-' + f.qualname)
-    ctx.floor('PUR-GLOBAL', n, 5, 'functions examined')
-    _fixture(ctx)
+    ctx.floor('PUR-GLOBAL', n, floor, 'functions examined')
+    if not ctx.cache.get('pur-fixture-done'):
+        ctx.cache['pur-fixture-done'] = True
+        _fixture(ctx)
 
 
 def _fixture(ctx):
